@@ -525,7 +525,10 @@ func extractEnumValue[T comparable, R any](value R) T {
 		var zero T
 		return zero
 	}
-	return any(value).(T)
+	// A nil result (an Enum[any] that accepted an absent value) cannot be
+	// asserted to T, not even to any: hand on the zero T.
+	r, _ := any(value).(T)
+	return r
 }
 
 // newZodEnumFromDef constructs a new ZodEnum from a definition.
